@@ -40,4 +40,8 @@ Legal(a, b) ==
                     <<"start error", "wait start">>, <<"running", "check failed">>, <<"wait start", "check failed">>,
                     <<"check failed", "wait start">> }
   \/ b = "closed"
+\* phases in which checkWorker (health flag good) may send a registration; running is the only one in which it must not
+SendDue(p) == p \in {"new", "check failed", "start error", "wait start"}
+\* SetRunningStatus for a wrapper in wait start
+AfterReply(ok) == IF ok THEN "running" ELSE "start error"
 =============================================================================
